@@ -7,8 +7,8 @@ mkdir -p /dev/shm/seedconfirm
 for c in 1 2; do
   src=/tmp/seedout-$p/change$c
   [ -f $src/patch.diff ] || continue
-  n=3; [ $c = 2 ] && n=4
-  d=seeded/$p-s$n; [ -d seeded/$p-s1 ] || d=seeded/$p-s$c
+  n=1; while [ -d seeded/$p-s$n ]; do n=$((n+1)); done
+  d=seeded/$p-s$n
   mkdir -p $d; cp $src/patch.diff $src/README.txt $d/ 2>/dev/null; cp $src/demo_test.go $d/ 2>/dev/null || cp $src/*_test.go $d/demo_test.go 2>/dev/null
   conf=$(tools/confirm_seed.sh $d $(basename $d) 2>&1 | grep '^SEED')
   out=$(tools/try_mutant.sh $d/patch.diff $p --workers 8 2>&1); rc=$?
